@@ -816,6 +816,10 @@ structure Tables where
   fams : List Family
   biv : BivTable
   upper : String → String
+  /-- `Multivariate.from_dict` instantiates the class named by `type` (without arguments) before
+      calling its `from_dict` (the former `get_instance(params['type'])`); `false`: it only looks
+      the class up (`getattr(importlib.import_module(package), name)`). -/
+  multiInstantiates : Bool
   /-- `get_instance("…GaussianMultivariate")` succeeds (the constructor needs no argument). -/
   gaussNoArg : Bool
   /-- `get_instance("…VineCopula")` succeeds. -/
@@ -848,18 +852,18 @@ def Model.entry : Model → Entry
   | .gauss _ => .gaussian
   | .vine _ => .vine
 
-/-- `Multivariate.from_dict`: `get_instance(params['type']).from_dict(params)` — the class named by
-    `type` is first *instantiated without arguments* (`TypeError`, here `none`, if its constructor
-    requires one), then its `from_dict` is called. -/
+/-- `Multivariate.from_dict`: the class named by `type` is looked up and its `from_dict` called; in
+    the former shape `get_instance(params['type']).from_dict(params)` the class was first
+    *instantiated without arguments* (`TypeError`, here `none`, if its constructor requires one). -/
 def multivariateFromDict (T : Tables) (d : V) : Option Model :=
   match d with
   | .dict kvs =>
       match lookup kvs "type" with
       | some (.str q) =>
           if q = gaussQual then
-            if T.gaussNoArg then (gaussFromDict T.fams d).map Model.gauss else Option.none
+            if !T.multiInstantiates || T.gaussNoArg then (gaussFromDict T.fams d).map Model.gauss else Option.none
           else if q = vineQual then
-            if T.vineNoArg then (vineFromDict T.fams d).map Model.vine else Option.none
+            if !T.multiInstantiates || T.vineNoArg then (vineFromDict T.fams d).map Model.vine else Option.none
           else Option.none
       | _ => Option.none
   | _ => Option.none
